@@ -65,9 +65,12 @@ func runFixed(c *core.Ctx, accuracy bool) {
 		if !c.Want(caseID) {
 			continue
 		}
-		sc := newScanner(cv)
+		sc := newScannerCh(cv, 1+ti%3)
 		var back *scanner
 		st, dt := cv.S.TypeInfo, cv.D.TypeInfo
+		preludeCheck(c, sc, name, caseID, rawOfAmp(st, 0), rawOfAmp(st, minAmp(st.Bits)), rawOfAmp(st, maxAmp(st.Bits)),
+			func(raw uint64) bool { return amp(dt, raw) == 0 })
+		chunkNo := 0
 		widening := dt.Bits > st.Bits
 		if accuracy && widening {
 			back = newScanner(inverseConv(cv))
@@ -85,6 +88,14 @@ func runFixed(c *core.Ctx, accuracy bool) {
 				return
 			}
 			out := sc.conv(in)
+			if chunkNo++; t.list || chunkNo%8 == 1 {
+				if idx, got := sc.orderCheck(in, out); idx >= 0 {
+					viol++
+					c.Violate(name+"|order-dependence", caseID, fmt.Sprintf("source amplitude %d converts to amplitude %d in an ascending buffer and to %d when the buffer is reversed", amp(st, in[idx]), amp(dt, out[idx]), amp(dt, got)),
+						map[string]any{"fn": name, "source_amplitude": amp(st, in[idx]), "position": idx, "buffer_len": len(in), "channels": sc.ch})
+				}
+				c.Obs("chunks_also_converted_in_reverse_order", 1)
+			}
 			var rt []uint64
 			if back != nil {
 				tmp := append([]uint64(nil), out...)
